@@ -40,24 +40,43 @@ def run_tests(wt, name=None):
 
 
 def run_checks(patch):
-    rc, out = sh(['git', '-C', REPO, 'status', '--porcelain'])
-    if out.strip():
-        print('refusing: /repo working tree is not clean')
-        sys.exit(2)
-    rc, out = sh(['git', '-C', REPO, 'apply', patch])
+    """all 20 quick checks against a scratch copy of /repo's current tree with the patch applied (VERIF_REPO), so that /repo itself
+       is never touched and several runs can go on at the same time; `--in-repo` uses `git -C /repo apply` / `git checkout -- .` instead"""
+    in_repo = '--in-repo' in sys.argv
+    tmp = None
+    env = dict(os.environ, VERIF_OUT_DIR=tempfile.mkdtemp(prefix='seedout-'))
+    if in_repo:
+        rc, out = sh(['git', '-C', REPO, 'status', '--porcelain'])
+        if out.strip():
+            print('refusing: /repo working tree is not clean')
+            sys.exit(2)
+        rc, out = sh(['git', '-C', REPO, 'apply', patch])
+    else:
+        tmp = tempfile.mkdtemp(prefix='seedrepo-')
+        for item in ('src', 'Cargo.toml', 'Cargo.lock'):
+            s_, d_ = os.path.join(REPO, item), os.path.join(tmp, item)
+            shutil.copytree(s_, d_) if os.path.isdir(s_) else shutil.copy(s_, d_)
+        r = subprocess.run(['patch', '-p1', '-s', '-i', patch], cwd=tmp, capture_output=True, text=True)
+        if r.returncode != 0:
+            print('patch does not apply to the current tree:', (r.stdout + r.stderr)[-300:])
+            shutil.rmtree(tmp, ignore_errors=True)
+            sys.exit(2)
+        env['VERIF_REPO'] = tmp
     results = {}
     try:
         props = ['C%02d' % i for i in range(1, 21)]
         for p in props:
-            r = subprocess.run(['python3', '-m', 'analysis.check', p, '--tier', 'quick'], cwd=VERIF,
-                               env=dict(os.environ, VERIF_OUT_DIR='/tmp/seedcheck-out'), capture_output=True, text=True)
+            r = subprocess.run(['python3', '-m', 'analysis.check', p, '--tier', 'quick'], cwd=VERIF, env=env, capture_output=True, text=True)
             keys = [l.split('key: ', 1)[1].strip() for l in r.stdout.splitlines() if l.strip().startswith('key: ')]
             results[p] = {'rc': r.returncode, 'keys': keys}
             if r.returncode == 2:
                 results[p]['errors'] = [l for l in r.stdout.splitlines() if l.startswith('ERROR')][:3]
     finally:
-        sh(['git', '-C', REPO, 'checkout', '--', '.'])
-        shutil.rmtree('/tmp/seedcheck-out', ignore_errors=True)
+        if in_repo:
+            sh(['git', '-C', REPO, 'checkout', '--', '.'])
+        if tmp:
+            shutil.rmtree(tmp, ignore_errors=True)
+        shutil.rmtree(env['VERIF_OUT_DIR'], ignore_errors=True)
     return results
 
 
